@@ -351,7 +351,7 @@ func genC04(g *Gen) {
 			key = fmt.Sprintf("D/%s/%s/%s/beyond%v/%s", c03Kind(T), c04HB(h), lb, beyond, c04NB(in))
 		}
 		g.Do("bmtree.Decode"+sfx, L(I32(T), U64s(bm)), key)
-		if T > 10 || g.R.Intn(8) == 0 {
+		if g.R.Intn(8) == 0 || T > 14 && g.R.Intn(2) == 0 {
 			k2 := ""
 			if key != "" {
 				k2 = "E" + key[1:]
@@ -735,12 +735,12 @@ func genC04(g *Gen) {
 
 	// (5) keys -> PathsOf -> PathToIndex -> Of -> Decode: sorted byte strings sharing their first `from`
 	//     bits; a key either reaches the leaf level or ends exactly on a stored level
-	n = g.N(400, 6000)
+	n = g.N(300, 1500)
 	for k := 0; k < n; k++ {
 		from := g.R.Pick(0, 0, 3, 8, 13, 16, 21)
-		h := g.R.Range(1, 14)
-		if g.R.Intn(3) == 0 {
-			h = g.R.Range(8, 12)
+		h := g.R.Range(1, 10)
+		if g.R.Intn(20) == 0 {
+			h = g.R.Range(11, 14)
 		}
 		T := uint32(1) << uint(h)
 		var short []int // stored levels on which a key may end
@@ -836,7 +836,7 @@ func genC04(g *Gen) {
 			}
 		}
 		g.Exhaust = append(g.Exhaust, "AllPaths/subtree: every level mask T in [1,2^5) x every node")
-		n = g.N(1200, 20000)
+		n = g.N(1200, 12000)
 		for k := 0; k < n; k++ {
 			h := g.R.Range(0, 30)
 			if g.R.Intn(8) == 0 {
